@@ -129,13 +129,9 @@ class DenseBlockDiagonalOperator(AbstractLinearOperator):
             raise ValueError(f'Several transposition axes have been specified: {subscripts!r}.')
         transpose_axis = transpose_axis_as_set.pop()
 
-        # we swap the transpose and sum axes
-        sum_axis_number = lefts.index(sum_axis)
-        transpose_axis_number = lefts.index(transpose_axis)
-        lefts_as_list = list(lefts)
-        lefts_as_list[sum_axis_number] = transpose_axis
-        lefts_as_list[transpose_axis_number] = sum_axis
-        lefts = ''.join(lefts_as_list)
+        # we swap the transpose and sum axes (every occurrence: a letter may be repeated in the blocks)
+        swap = {sum_axis: transpose_axis, transpose_axis: sum_axis}
+        lefts = ''.join(swap.get(letter, letter) for letter in lefts)
 
         transpose_axis_number = results.index(transpose_axis)
         results_as_list = list(results)
